@@ -107,7 +107,7 @@ func vf07NewWorld(t *testing.T) (*vf07World, func(), error) {
 	if err != nil {
 		return nil, cleanup, err
 	}
-	authn, err := ldap.New(cluster.URLs(), []string{vfldapsrv.BindPattern}, 1, cluster.RootCAs, state, state.logger)
+	authn, err := ldap.New(cluster.URLs(), []string{vfldapsrv.BindPattern}, vfldapsrv.ClientTimeoutSecs, cluster.RootCAs, state, state.logger)
 	if err != nil {
 		return nil, cleanup, err
 	}
@@ -163,7 +163,7 @@ func (w *vf07World) setPats(kinds []string) (bool, error) {
 	if !ok {
 		return false, nil
 	}
-	authn, err := ldap.New(w.cluster.URLs(), pats, 1, w.cluster.RootCAs, w.state, w.state.logger)
+	authn, err := ldap.New(w.cluster.URLs(), pats, vfldapsrv.ClientTimeoutSecs, w.cluster.RootCAs, w.state, w.state.logger)
 	if err != nil {
 		return true, err
 	}
@@ -179,7 +179,7 @@ func (w *vf07World) reset() error {
 	w.cluster.SetPassword("alice", vf07Password(1), true)
 	w.cluster.SetPassword("bob", vf07Password(2), true)
 	w.state.db = w.realDB
-	w.state.remoteDBQueryTimeout = 2 * time.Second
+	w.state.remoteDBQueryTimeout = vfPrimaryAnswersInTime
 	w.vault = map[int]*vf07Row{}
 	for _, db := range []*sql.DB{w.realDB, w.state.cacheDB} {
 		for _, q := range []string{"DELETE FROM expiring_signed_user_data", "DELETE FROM user_profile"} {
@@ -517,7 +517,7 @@ func vf07Worker(t *testing.T, lines []string) (out []string) {
 			switch f[1] {
 			case "up":
 				w.state.db = w.realDB
-				w.state.remoteDBQueryTimeout = 2 * time.Second
+				w.state.remoteDBQueryTimeout = vfPrimaryAnswersInTime
 			case "slow":
 				w.state.db = w.realDB
 				w.state.remoteDBQueryTimeout = 0
